@@ -1144,4 +1144,133 @@ theorem count_resolvedIds (outs : List Out) (i : Nat) :
     cases o <;> simp only [resolvedIds, List.count_cons, ih, beq_iff_eq, Out.failPart.injEq, Out.fulfilPart.injEq,
       reduceCtorEq, ↓reduceIte] <;> (try split) <;> omega
 
+/-! ## the parts as the translated code (Generated/InboundMpp.lean, `MppGen`) sees them: sums and closed forms.
+   Nothing here unfolds a translated function; the lemmas that do are theorems of Props/C04. -/
+
+/-- Σ sender_intended_value / Σ value / Σ skimmed fee over the parts as the translated code sees them -/
+def gIntended (l : List MppGen.PartG) : Nat := (l.map (·.sender_intended_value)).sum
+
+def gValue (l : List MppGen.PartG) : Nat := (l.map (·.value)).sum
+
+def gSkim (l : List MppGen.PartG) : Nat := (l.map (·.counterparty_skimmed_fee_msat.getD 0)).sum
+
+/-- `htlc.timer_ticks += 1` -/
+def gTick (h : MppGen.PartG) : MppGen.PartG := { h with timer_ticks := h.timer_ticks + 1 }
+
+/-- some part has now waited `MPP_TIMEOUT_TICKS` ticks -/
+def gExpired (l : List MppGen.PartG) : Bool := l.any fun h => decide (MPP_TIMEOUT_TICKS ≤ h.timer_ticks + 1)
+
+/-- what `check_incoming_mpp_part` decides, in closed form -/
+def incomingSpec (set : List MppGen.PartG) (new_htlc : MppGen.PartG) (total_mpp_value : Nat) : MppGen.Verdict :=
+  if gIntended set + new_htlc.sender_intended_value ≥ MAX_VALUE_MSAT then .reject
+  else if gIntended set ≥ total_mpp_value then .reject
+  else if gIntended set + new_htlc.sender_intended_value ≥ total_mpp_value then .complete
+  else .hold
+
+theorem incomingSpec_complete (set : List MppGen.PartG) (new_htlc : MppGen.PartG) (total_mpp_value : Nat) :
+    incomingSpec set new_htlc total_mpp_value = .complete ↔
+      (total_mpp_value ≤ gIntended set + new_htlc.sender_intended_value ∧ gIntended set < total_mpp_value ∧
+       gIntended set + new_htlc.sender_intended_value < MAX_VALUE_MSAT) := by
+  unfold incomingSpec
+  split
+  · simp only [reduceCtorEq, false_iff]; omega
+  · split
+    · simp only [reduceCtorEq, false_iff]; omega
+    · split
+      · simp only [true_iff]; omega
+      · simp only [reduceCtorEq, false_iff]; omega
+
+theorem gIntended_map_tick (l : List MppGen.PartG) : gIntended (l.map gTick) = gIntended l := by
+  simp [gIntended, gTick, List.map_map, Function.comp_def]
+
+theorem gIntended_setRecv (l : List MppGen.PartG) (x : Option Nat) :
+    gIntended (l.map fun h => { h with total_value_received := x }) = gIntended l := by
+  simp [gIntended, List.map_map, Function.comp_def]
+
+theorem gIntended_append (a b : List MppGen.PartG) : gIntended (a ++ b) = gIntended a + gIntended b := by
+  simp [gIntended, List.sum_append]
+
+/-- `n` timer ticks applied to a part list: what `check_mpp_timeout` leaves behind each time -/
+def tickedN (total_mpp_value : Nat) : Nat → List MppGen.PartG → List MppGen.PartG
+  | 0, l => l
+  | n + 1, l => tickedN total_mpp_value n (MppGen.checkMppTimeout l total_mpp_value).1
+
+theorem gIntended_g (l : List Part) : gIntended (l.map Part.g) = sumIntended l := by
+  simp [gIntended, sumIntended, Part.g, List.map_map, Function.comp_def]
+
+theorem gValue_g (l : List Part) : gValue (l.map Part.g) = sumValue l := by
+  simp [gValue, sumValue, Part.g, List.map_map, Function.comp_def]
+
+theorem gSkim_g (l : List Part) : gSkim (l.map Part.g) = sumSkim l := by
+  simp [gSkim, sumSkim, Part.g, List.map_map, Function.comp_def]
+
+theorem gTick_g (l : List Part) :
+    (l.map Part.g).map gTick = (l.map fun q => { q with ticks := q.ticks + 1 }).map Part.g := by
+  simp [gTick, Part.g, List.map_map, Function.comp_def]
+
+theorem gExpired_g (l : List Part) :
+    gExpired (l.map Part.g) = l.any fun q => decide (MPP_TIMEOUT_TICKS ≤ q.ticks + 1) := by
+  simp only [gExpired, Part.g, List.any_map, Function.comp_def]
+  congr 1
+
+theorem incomingSpec_reject (set : List MppGen.PartG) (new_htlc : MppGen.PartG) (total_mpp_value : Nat) :
+    incomingSpec set new_htlc total_mpp_value = .reject ↔
+      (MAX_VALUE_MSAT ≤ gIntended set + new_htlc.sender_intended_value ∨ total_mpp_value ≤ gIntended set) := by
+  unfold incomingSpec
+  split
+  · simp only [true_iff]; omega
+  · split
+    · simp only [true_iff]; omega
+    · split
+      · simp only [reduceCtorEq, false_iff]; omega
+      · simp only [reduceCtorEq, false_iff]; omega
+
+theorem incomingSpec_hold (set : List MppGen.PartG) (new_htlc : MppGen.PartG) (total_mpp_value : Nat) :
+    incomingSpec set new_htlc total_mpp_value = .hold ↔
+      (gIntended set + new_htlc.sender_intended_value < MAX_VALUE_MSAT ∧
+       gIntended set + new_htlc.sender_intended_value < total_mpp_value) := by
+  unfold incomingSpec
+  split
+  · simp only [reduceCtorEq, false_iff]; omega
+  · split
+    · simp only [reduceCtorEq, false_iff]; omega
+    · split
+      · simp only [reduceCtorEq, false_iff]; omega
+      · simp only [true_iff]; omega
+
+theorem partIds_ticks (n : Nat) : partIds (List.replicate n Op.tick) = [] := by
+  induction n with
+  | zero => rfl
+  | succ n ih => simp only [List.replicate_succ, partIds, ih]
+
+theorem stepTick_wait (s : Mpp) (hne : s.parts ≠ []) (hlt : sumIntended s.parts < s.total)
+    (hw : ∀ p ∈ s.parts, p.ticks + 1 < MPP_TIMEOUT_TICKS) :
+    stepTick s = ({ s with parts := s.parts.map fun q => { q with ticks := q.ticks + 1 } }, []) := by
+  have hemp : s.parts.isEmpty = false := by cases hs : s.parts <;> simp_all
+  have hany : (s.parts.any fun q => decide (MPP_TIMEOUT_TICKS ≤ q.ticks + 1)) = false := by
+    rw [List.any_eq_false]; intro p hp; have := hw p hp; simp; omega
+  simp only [stepTick, hemp, Bool.false_eq_true, ↓reduceIte, sumIntended_tick, List.any_map, Function.comp_def, ge_iff_le,
+    Nat.not_le.2 hlt, hany]
+
+theorem run_ticks_empty (s : Mpp) (he : s.parts = []) (n : Nat) : run s (List.replicate n .tick) = (s, []) := by
+  induction n with
+  | zero => rfl
+  | succ n ih =>
+    have : step s .tick = (s, []) := by simp [step, stepTick, he]
+    simp only [List.replicate_succ, run, this, ih, List.append_nil]
+
+theorem sum_le_of_forall (l : List Part) (f g : Part → Nat) (h : ∀ p ∈ l, f p ≤ g p) : (l.map f).sum ≤ (l.map g).sum := by
+  induction l with
+  | nil => simp
+  | cons p ps ih =>
+    simp only [List.map_cons, List.sum_cons]
+    have := h p (List.mem_cons_self ..)
+    have := ih (fun q hq => h q (List.mem_cons_of_mem _ hq))
+    omega
+
+theorem sum_map_add (l : List Part) (f g : Part → Nat) : (l.map fun p => f p + g p).sum = (l.map f).sum + (l.map g).sum := by
+  induction l with
+  | nil => simp
+  | cons p ps ih => simp only [List.map_cons, List.sum_cons, ih]; omega
+
 end Ldk.InboundPay
